@@ -46,8 +46,8 @@ pub fn gen_c14(run: &mut Run, seed: u64, thorough: bool) {
             let svc_bal = if tcls.is_empty() { parse_i128(&run.op(&format!("sac.balance {} {}", tok.tok(), gs.tok()), "q")) } else { 0 };
             let sp_bal = if tcls.is_empty() { parse_i128(&run.op(&format!("sac.balance {} {}", tok.tok(), spender.tok()), "q")) } else { 0 };
             // who authorises
-            let mut pick_auth = |right: &Addr, rng: &mut Rng| -> (String, &'static str) {
-                match rng.below(14) {
+            let mut pick_auth = |right: &Addr, rng: &mut Rng, has_subs: bool| -> (String, &'static str) {
+                match rng.below(22) {
                     0 => ("-".into(), "nobody"),
                     1 => (stranger.tok(), "stranger"),
                     2 => (cur_owner.tok(), if *right == cur_owner { "right" } else { "owner" }),
@@ -55,7 +55,7 @@ pub fn gen_c14(run: &mut Run, seed: u64, thorough: bool) {
                     4 => (sender.tok(), if *right == sender { "right" } else { "sender" }),
                     5 => (receiver.tok(), if *right == receiver { "right" } else { "receiver" }),
                     6 => (format!("{}!", right.tok()), "right-other-args"),
-                    7 => (format!("{}~", right.tok()), "right-root-only"),
+                    7 if has_subs => (format!("{}~", right.tok()), "right-root-only"),
                     _ => (right.tok(), "right"),
                 }
             };
@@ -68,7 +68,7 @@ pub fn gen_c14(run: &mut Run, seed: u64, thorough: bool) {
                         3 => (sp_bal + 1, "amt-bal+1"),
                         _ => (rng.range(1, 40) as i128, "amt-small"),
                     };
-                    let (auth, aucl) = pick_auth(&spender, &mut rng);
+                    let (auth, aucl) = pick_auth(&spender, &mut rng, true);
                     let aucl = if aucl == "right-root-only" && false { "right" } else { aucl };
                     if kind < 2 {
                         let payload = rng.bytes(rng.0 as usize % 40);
@@ -92,7 +92,7 @@ pub fn gen_c14(run: &mut Run, seed: u64, thorough: bool) {
                         4 => (svc_bal - 1, "amt-exact-1"),
                         _ => (rng.range(1, 20) as i128, "amt-small"),
                     };
-                    let (auth, aucl) = pick_auth(&collector, &mut rng);
+                    let (auth, aucl) = pick_auth(&collector, &mut rng, false);
                     run.op(&format!("gs.collect_fees {} {} {} {}", receiver.tok(), tok.tok(), amt, auth), &format!("collect{tcls}-{ac}-{aucl}"));
                 }
                 7 | 8 => {
@@ -103,7 +103,7 @@ pub fn gen_c14(run: &mut Run, seed: u64, thorough: bool) {
                         3 => (svc_bal + 1, "amt-exact+1"),
                         _ => (rng.range(1, 20) as i128, "amt-small"),
                     };
-                    let (auth, aucl) = pick_auth(&collector, &mut rng);
+                    let (auth, aucl) = pick_auth(&collector, &mut rng, false);
                     run.op(&format!("gs.refund {} {} {} {} {}", hx(b"msg-7"), receiver.tok(), tok.tok(), amt, auth), &format!("refund{tcls}-{ac}-{aucl}"));
                 }
                 9 => {
@@ -115,7 +115,7 @@ pub fn gen_c14(run: &mut Run, seed: u64, thorough: bool) {
                 10 => {
                     if rng.chance(1, 3) {
                         let new = if rng.chance(1, 2) { Addr::c(3) } else { owner.clone() };
-                        let (auth, aucl) = pick_auth(&cur_owner.clone(), &mut rng);
+                        let (auth, aucl) = pick_auth(&cur_owner.clone(), &mut rng, false);
                         let o = run.op(&format!("gs.transfer_ownership {} {}", new.tok(), auth), &format!("transfer_ownership-{aucl}"));
                         if o.starts_with("ok") {
                             cur_owner = new;
